@@ -123,7 +123,13 @@ class C12(Prop):
         elif g.random() < 0.4:
             src = {"kind": "corpus", "file": g.choice(files), "mutate": g.randrange(1 << 30) if g.random() < 0.5 else None}
         else:
-            doc = docmodel.std_doc(g, custom=g.choice([0, 0, 1]), wrap=g.random() < 0.2, ncurves=g.choice([None, None, 8, 15, 22, 29]))
+            doc = docmodel.std_doc(g, custom=g.choice([0, 0, 1]), wrap=g.random() < 0.2, ncurves=g.choice([None, None, 8, 14, 15, 21, 22, 28, 29]))
+            if not doc["wrap"] and g.random() < 0.12:
+                for sec in doc["sections"]:
+                    if sec["kind"] == "V":
+                        for it in sec["items"]:
+                            if it[0] == "WRAP":
+                                it[2] = g.choice(["No", "no", "Yes", "yes"])     # lasio honours only the spelling YES
             if g.random() < 0.3:
                 for sec in doc["sections"]:
                     if sec["kind"] == "C" and len(sec["items"]) > 1:
